@@ -8,7 +8,9 @@
       ([chk]) is an ARGUMENT (the systolic / local optimisations decide it).
     - [sched_write]: the writes of an iteration performed block by block in an arbitrary
       order (the schedule of the worker threads is an argument).
-    - [cstep]/[hb_run]: the concrete bookkeeping of [iterate]: [curr_modified],
+    - [cstep]/[hb_run]: the concrete bookkeeping of [iterate] as the code is NOW
+      ([cstep_prefix]/[hb_run_prefix]: with the rule for the local flag that the code had
+      before its repair, kept for the refutation): [curr_modified],
       [next_modified], [must_be_checked], [next_must_be_checked], the local check list and
       the per-thread buffers, the systolic / local / pre-local flags decided from the number
       of modified counters exactly as the code does, the neighbourhood function (with an
@@ -140,13 +142,22 @@ Section HyperBall.
 
   Definition sumZ (l : list Z) : Z := fold_right Z.add 0%Z l.
 
-  (** one call of [iterate] with the given flags *)
-  Definition cstep (ext : bool) (g gt : graph) (s : cstate) (sys pl : bool) : cstate :=
+  (** one call of [iterate] with the given flags.
+
+      [repaired] selects the rule for the local flag.  As the code is NOW ([repaired = true])
+      [ic.local = ic.pre_local && ic.systolic]: [systolic] is decided first from the number
+      of modified counters, then [local], then the new [pre_local]; a standard
+      (non-systolic) iteration never runs in local mode, so it scans every node and sums the
+      neighbourhood function over all of them.  BEFORE the repair ([repaired = false]) the
+      rule was [ic.local = ic.pre_local]: an iteration could be local but not systolic,
+      scanning only the check list while summing the neighbourhood function from zero.
+      The old rule is kept only to state the refutation [S_nf_refuted]. *)
+  Definition cstep_gen (repaired : bool) (ext : bool) (g gt : graph) (s : cstate) (sys pl : bool) : cstate :=
     let a := c_arr s in
     let n := length (a_curr a) in
     let prev_sys := c_sys s in
     let prev_local := c_local s in
-    let local := c_prelocal s in
+    let local := if repaired then c_prelocal s && sys else c_prelocal s in
     (* next_modified is cleared: entirely, or only on the old check list *)
     let nmod0 := if prev_local then tab n (fun v => getb (c_nmod s) v && negb (memb v (c_check s)))
                  else repeat false n in
@@ -173,21 +184,32 @@ Section HyperBall.
         (if sys then nmbc1 else mbc0) (if sys then mbc0 else nmbc1)
         sys local pl check buf' (length modified) (S (c_iter s)) nfv (Z.max nfv last_out :: c_nf s).
 
+  (** the code as it is now *)
+  Definition cstep := cstep_gen true.
+  (** the code before the repair of the local flag (pre-fix behaviour) *)
+  Definition cstep_prefix := cstep_gen false.
+
   (** [run]: at most [fuel] iterations, stopping after the first one that modifies nothing;
       returns the state after every iteration *)
-  Fixpoint crun (ext : bool) (has_tr : bool) (g gt : graph) (fuel : nat) (s : cstate) : list cstate :=
+  Fixpoint crun_gen (repaired : bool) (ext : bool) (has_tr : bool) (g gt : graph) (fuel : nat) (s : cstate)
+    : list cstate :=
     match fuel with
     | O => []
     | S f =>
       let n := length (a_curr (c_arr s)) in
       let '(sys, pl) := decide has_tr n (num_arcs g) (c_iter s) (c_count s) in
-      let s' := cstep ext g gt s sys pl in
-      s' :: (if Nat.eqb (c_count s') 0 then [] else crun ext has_tr g gt f s')
+      let s' := cstep_gen repaired ext g gt s sys pl in
+      s' :: (if Nat.eqb (c_count s') 0 then [] else crun_gen repaired ext has_tr g gt f s')
     end.
+  Definition crun := crun_gen true.
 
   (** [run(upper_bound)]: [upper_bound] is clipped to the number of nodes *)
-  Definition hb_run (ext has_tr : bool) (g gt : graph) (ub : nat) (c0 : list L) : list cstate :=
-    crun ext has_tr g gt (Nat.min ub (length c0)) (init_state c0).
+  Definition hb_run_gen (repaired : bool) (ext has_tr : bool) (g gt : graph) (ub : nat) (c0 : list L) : list cstate :=
+    crun_gen repaired ext has_tr g gt (Nat.min ub (length c0)) (init_state c0).
+  (** the code as it is now *)
+  Definition hb_run := hb_run_gen true.
+  (** the code before the repair (only for the refutation) *)
+  Definition hb_run_prefix := hb_run_gen false.
 
   (** plain iteration until nothing changes (for the reference values) *)
   Fixpoint sync_run (g : graph) (fuel : nat) (c : list L) : list L * nat :=
@@ -243,6 +265,10 @@ Definition ball_sizes (g : graph) (t : nat) : list Z * nat :=
 (** the run on registers: the state after every iteration *)
 Definition hb_run_regs (ext has_tr : bool) (g gt : graph) (ub : nat) (c0 : list (list N)) :=
   hb_run (list N) regs_join regs_eqb [] regs_size ext has_tr g gt ub c0.
+(** the same run under the rule for the local flag that the code had BEFORE its repair
+    (used by the driver only to recognise a regression to the old behaviour) *)
+Definition hb_run_regs_prefix (ext has_tr : bool) (g gt : graph) (ub : nat) (c0 : list (list N)) :=
+  hb_run_prefix (list N) regs_join regs_eqb [] regs_size ext has_tr g gt ub c0.
 Definition cs_curr (s : cstate (list N)) : list (list N) := a_curr _ (c_arr _ s).
 Definition cs_mod (s : cstate (list N)) : list bool := a_mod _ (c_arr _ s).
 Definition cs_flags (s : cstate (list N)) : (bool * bool * bool) * nat :=
